@@ -1868,12 +1868,18 @@ def r3_groups(rng, gid0, inputs, quick):
     L += ["arena 2000000", "trace 0"]
     n = 0
     combos = [(0, 2, 0, 1000, 5000), (1, 2, 0, 1000, 5000), (2, 2, 0, 1000, 5000), (0, 1, 0, 300, 70000), (1, 1, 0, 4000, 100),
-              (0, 0, 0, 100000, 140000), (2, 0, 0, 100000, 140000), (0, 1, 1, 2000, 60000), (2, 2, 1, 3000, 3000)]
+              (0, 0, 0, 100000, 140000), (2, 0, 0, 100000, 140000), (0, 1, 1, 2000, 60000), (2, 2, 1, 3000, 3000),
+              (3, 2, 0, 1000, 5000), (3, 0, 0, 70000, 100), (3, 1, 0, 131071, 131072),
+              # boundaries of the case splits of the proofs: total = BLOCKSIZE_MAX - 1 (still deferred) / exactly BLOCKSIZE_MAX (first
+              # block), a remainder of exactly one block under e_continue, nothing pending (n2 = 0 would need pos = size: n2 = 1)
+              (2, 0, 0, 1000, 131072 - 1000 - 1), (2, 0, 0, 1000, 131072 - 1000), (2, 0, 0, 1000, 2 * 131072 - 1000), (2, 0, 0, 131071, 1),
+              (2, 0, 0, 1, 131072), (2, 1, 0, 131071, 1), (0, 0, 0, 131071, 1), (1, 0, 0, 1000, 131072)]
     if not quick:
-        for _ in range(40):
-            combos.append((rng.randrange(3), rng.randrange(3), rng.choice([0, 0, 1, 2]), rng.randint(1, 131071), rng.randint(1, 200000)))
+        for _ in range(60):
+            combos.append((rng.randrange(4), rng.randrange(3), rng.choice([0, 0, 1, 2]), rng.randint(1, 131071),
+                           rng.choice([rng.randint(1, 200000), 131072 * rng.randint(1, 3) - rng.randint(0, 2)])))
     for mode, endop, nbw, n1, n2 in combos:
-        if endop == 0 and n1 + n2 < 131072:
+        if endop == 0 and n1 + n2 < 131072 and mode in (0, 1):
             n2 = 131072 - n1 + rng.randint(0, 5000)         # an e_continue call ends the deferral only when a block is reached
         L.append("X stablein %d %d %d %d %d" % (mode, endop, nbw, n1, n2))
         n += 1
@@ -1894,7 +1900,7 @@ def judge_r3(g, res, report, ctx):
             continue
         n += 1
         if t[1] == "stablein":
-            mode, endop, nbw, n1, n2, e1, e2, estab, regen, same, bmax = (int(x) for x in t[2:13])
+            mode, endop, nbw, n1, n2, e1, e2, estab, regen, same, bmax, st2, nc2 = (int(x) for x in t[2:15])
             if mode in (0, 1):
                 ok = (e2 == estab)
             else:
@@ -1904,8 +1910,9 @@ def judge_r3(g, res, report, ctx):
                 report("differ" if mode in (0, 1) else "rt", g,
                        dict(what="ZSTD_c_stableInBuffer=1: deferred ZSTD_e_continue of %d bytes, then %s with %s: expected %s, got error code %d, "
                                  "frame regenerates %d bytes" % (n1, ["e_continue", "e_flush", "e_end"][endop],
-                                                                ["another input buffer", "the same buffer with pos rewound to 0", "the grown buffer"][mode],
-                                                                "stabilityCondition_notRespected" if mode in (0, 1) else "the %d input bytes back" % (n1 + n2),
+                                                                ["another input buffer", "the same buffer with pos rewound to 0", "the grown buffer",
+                                                                 "ZSTD_CCtx_reset(session_only) and another buffer"][mode],
+                                                                "stabilityCondition_notRespected" if mode in (0, 1) else "the %d input bytes back" % (n2 if mode == 3 else n1 + n2),
                                                                 e2, regen), line=l), key=KEY_STABLEIN if mode in (0, 1) else None)
         elif t[1] == "copyopen":
             nb, we, e0, st1, e1, st2, e2, e3, d = (int(x) for x in t[2:11])
@@ -1932,25 +1939,33 @@ def r3_lockstep(ctx, model, results, report):
             t = l.split(" ")
             if t[0] != "X" or t[1] != "stablein" or len(t) < 13:
                 continue
-            mode, endop, nbw, n1, n2, e1, e2, estab, regen, same, bmax = (int(x) for x in t[2:13])
-            c2 = [(B, n2, 0), (A, n1 + n2, 0), (A, n1 + n2, n1)][mode]
-            calls = [A, n1, 0, 0, c2[0], c2[1], c2[2], endop]
+            mode, endop, nbw, n1, n2, e1, e2, estab, regen, same, bmax, st2, nc2 = (int(x) for x in t[2:15])
+            c2 = [(B, n2, 0), (A, n1 + n2, 0), (A, n1 + n2, n1), (B, n2, 0)][mode]
+            calls = [A, n1, 0, 0]
+            if mode == 3:
+                calls += [0, 0, 0, 3]
+            calls += [c2[0], c2[1], c2[2], endop]
             if endop != 2:
                 calls += [c2[0], c2[1], c2[1], 2]
             cases.append((17, [0, 131072] + calls))
-            meta.append((g, l, mode, endop, e1, e2, estab, regen, bmax, n1, n2))
+            meta.append((g, l, mode, endop, e1, e2, estab, regen, bmax, n1, n2, st2, nc2, nbw))
     if not cases:
         return 0
     n_ok = 0
-    for (g, l, mode, endop, e1, e2, estab, regen, bmax, n1, n2), r in zip(meta, model.run(cases)):
+    for (g, l, mode, endop, e1, e2, estab, regen, bmax, n1, n2, st2, nc2, nbw), r in zip(meta, model.run(cases)):
         ctx.cov["traces_validated_against_impl"] += 1
-        ncall = 2 if endop == 2 else 3
+        ncall = (2 if endop == 2 else 3) + (1 if mode == 3 else 0)
+        k2 = 2 if mode == 3 else 1            # index of the call that follows the deferred one
         bad = None
-        if len(r) != 3 * ncall + 1:
+        if len(r) != 5 * ncall + 1:
             bad = dict(what="model output length", got=len(r))
         else:
-            acc = [r[3 * k] for k in range(ncall)]
-            total = sum(r[3 * k + 2] - r[3 * k + 1] for k in range(ncall) if acc[k])
+            acc = [r[5 * k] for k in range(ncall)]
+            acc = [acc[0]] + acc[k2:]
+            total = sum(r[5 * k + 2] - r[5 * k + 1] for k in range(ncall) if r[5 * k])
+            if mode == 3:
+                total -= 0                     # the deferred call read nothing: the frame holds the second buffer only
+            m_open, m_nc = r[5 * k2 + 3], r[5 * k2 + 4]
             if r[-1] != bmax:
                 bad = dict(what="ZSTD_BLOCKSIZE_MAX", model=r[-1], real=bmax)
             elif acc[0] != (1 if e1 == 0 else 0):
@@ -1959,6 +1974,10 @@ def r3_lockstep(ctx, model, results, report):
                 bad = dict(what="the model refuses the call that ends the deferral, the code returns error code %d" % e2)
             elif acc[1] == 1 and (e2 != 0 or regen != total):
                 bad = dict(what="the model accepts and hands over %d bytes; the code: error code %d, frame regenerates %d" % (total, e2, regen))
+            elif acc[1] == 1 and nbw == 0 and (st2, nc2) != (m_open, m_nc):
+                # single-thread path only: with workers the input is copied into the job buffers and nothing stays pending
+                bad = dict(what="after the call that follows the deferred one", predicted=dict(stage_open=m_open, notConsumed=m_nc),
+                           observed=dict(stage_open=st2, notConsumed=nc2))
         ctx.count(("lockstep-stablein", mode, endop, bad is None), nontrivial=True)
         if bad:
             report("lockstep", g, dict(model="StableIn.step (accepted, bytes handed to the block compressor)", line=l, detail=bad))
